@@ -78,11 +78,13 @@ BOUND = {"quick": 5, "thorough": 7}
 LAYOUTS = {"quick": 30, "thorough": 500}        # per shard
 FLOORS = {
     "quick": {"judged": 1500000, "judged_loads": 20000, "layouts": 480,
+              "loader_reuse_loads": 500,
               "judged_fragment": 3000, "fragment_rejected": 3000,
               "accepted": 20000, "judged_ispath": 190000,
               "judged_urljoin": 700000, "judged_urlnormalize": 170000,
               "judged_urldefrag": 190000, "judged_normalizeurl": 170000},
     "thorough": {"judged": 150000000, "judged_loads": 350000,
+                 "loader_reuse_loads": 8000,
                  "layouts": 8000, "judged_fragment": 60000,
                  "fragment_rejected": 60000, "accepted": 350000,
                  "judged_ispath": 21000000, "judged_urljoin": 80000000,
@@ -1017,6 +1019,58 @@ def check_helper(ctx, H, s, fns=None):
 
 
 # =========================================================================
+def run_loader_reuse(ctx, ZConfig, rng, n):
+    """One long-lived SchemaLoader / ConfigLoader, the same relative name
+    loaded from different current directories (and by path, URL): every
+    load must reach the file the name means *now*."""
+    import urllib.request
+    res = ctx.res
+    root = os.path.join(os.path.realpath(ctx.tmp), "reuse%d" % n)
+    name_s = rng.choice(["same.xml", "s p.xml", "sché.xml", "a+b.xml"])
+    name_c = rng.choice(["same.conf", "c d.conf", "cö.conf"])
+    dirs = []
+    for i in range(rng.randint(2, 3)):
+        d = os.path.join(root, rng.choice(["d", "dir x", "é"]) + str(i))
+        os.makedirs(d)
+        _write(os.path.join(d, name_s),
+               "<schema><key name='k%d' default='v%d'/>"
+               "<key name='shared'/></schema>" % (i, i))
+        _write(os.path.join(d, name_c), "shared from-%d\n" % i)
+        dirs.append(d)
+    sloader = ZConfig.loader.SchemaLoader()
+    order = [rng.randrange(len(dirs)) for _ in range(rng.randint(3, 6))]
+    for step, i in enumerate(order):
+        d = dirs[i]
+        how = rng.choice(["rel", "rel", "dotrel", "abs", "url"])
+        with Cwd(d):
+            sp = {"rel": name_s, "dotrel": "./" + name_s,
+                  "abs": os.path.join(d, name_s),
+                  "url": "file://" + urllib.request.pathname2url(
+                      os.path.join(d, name_s))}[how]
+            res.evaluations += 1
+            res.count("judged")
+            res.count("loader_reuse_loads")
+            case = {"op": "loader-reuse", "seed_n": n}
+            try:
+                schema = sloader.loadURL(sp)
+                keys = sorted(k for k, _ in schema if k)
+                cfg_loader = ZConfig.loader.ConfigLoader(schema)
+                cfg, _ = cfg_loader.loadURL(name_c)
+                got = (keys, cfg.shared)
+            except Exception as e:  # noqa
+                got = ("raised", "%s: %s" % (type(e).__name__, e))
+            want = (sorted(["k%d" % i, "shared"]), "from-%d" % i)
+            res.sig("L|%s|%s" % (how, "ok" if got == want else "bad"))
+            if got != want:
+                res.violate("loader-reuse", dict(case, witness={
+                    "step": step, "cwd": d, "named": sp, "order": order}),
+                    expected=list(want), observed=_jsonable(list(got)),
+                    detail="one SchemaLoader reused; step %d loads %r from "
+                    "cwd %s" % (step, sp, d), vsig="L|%s" % how)
+    import shutil
+    shutil.rmtree(root, ignore_errors=True)
+
+
 def run_shard(ctx):
     import ZConfig
     res = ctx.res
@@ -1026,6 +1080,8 @@ def run_shard(ctx):
         for n in range(LAYOUTS[ctx.tier]):
             model = gen_model(rng)
             run_layout(ctx, ZConfig, model, n)
+            if n % 3 == 0:
+                run_loader_reuse(ctx, ZConfig, rng, n)
         H = Helpers(ZConfig)
         bound = BOUND[ctx.tier]
         for s in enum_strings(ctx, bound):
@@ -1070,6 +1126,12 @@ def replay(ctx, case):
             H.flush(ctx.res)
         elif case["op"] == "layout":
             run_layout(ctx, ZConfig, case["model"], "replay")
+        elif case["op"] == "loader-reuse":
+            import random
+            for n in range(12):
+                run_loader_reuse(ctx, ZConfig,
+                                 random.Random(case.get("seed_n", 0) + n),
+                                 n)
         elif case["op"] == "fragment":
             world = os.path.join(os.path.realpath(ctx.tmp), "wfrag")
             lay = Layout(case["model"], world)
